@@ -430,6 +430,20 @@ V("MP3-data-property-skips-scaling", "C03", "MP3",
 V("MP3-double-scaling", "C03", "MP3",
   ("tdms.py", "        return self._scale_data(self._raw_data)\n", "        once = self._scale_data(self._raw_data)\n        return self._scaling.scale(once) if self._scaling is not None else once\n"))
 
+V("DT3-timestamp-receiver-milliseconds", "C14", "DT3",
+  ("channel_data.py", "            self.data = _new_numpy_array(np.dtype('datetime64[us]'), num_values, memmap_dir)\n",
+   "            self.data = _new_numpy_array(np.dtype('datetime64[ms]'), num_values, memmap_dir)\n"))
+V("DT3-strings-to-numpy-receiver", "C14", "DT3",
+  ("channel_data.py", "    if obj.data_type.nptype is None:\n        return ListDataReceiver(obj)\n", "    if obj.data_type.nptype is None and obj.data_type != types.String:\n        return ListDataReceiver(obj)\n"))
+V("DT3-raw-dtype-timestamp-ns", "C14", "DT3",
+  ("tdms.py", "            return np.dtype('<M8[us]')\n", "            return np.dtype('<M8[ns]')\n"))
+V("LN1-length-counted-separately", "C14", "LN1",
+  ("reader.py", "            object_metadata.num_values += _number_of_segment_values(segment_object, segment)\n",
+   "            object_metadata.num_values += segment_object.number_values * segment.num_chunks if segment_object.has_data else 0\n"))
+V("LN1-benign-local", "C14", None,
+  ("reader.py", "            object_metadata.num_values += _number_of_segment_values(segment_object, segment)\n",
+   "            n_new = _number_of_segment_values(segment_object, segment)\n            object_metadata.num_values += n_new\n"))
+
 # ---------------------------------------------------------------- C16 (PT1-PT4)
 V("PT1-no-doubling", "C16", "PT1",
   ("common.py", "        [\"'\" + c.replace(\"'\", \"''\") + \"'\" for c in components]))", "        [\"'\" + c + \"'\" for c in components]))"))
